@@ -252,7 +252,10 @@ theorem C08_upper_aff (M : Mat) (go ge : Int) (a b : Seq) (aln : Aln) (h : Valid
   simp only [optAff, hv, Option.getD_some]
   omega
 
-/-- affine, semi-global (positional form of `terminal_penalty=False`). -/
+/-- affine, semi-global (positional form of `terminal_penalty=False`).  NOTE the class: `NoAbut` also forbids a
+(penalised) gap run in one sequence directly followed or preceded by the FREE terminal gap run of the other
+sequence — exactly the restriction `_fill_align_table_affine` has (no G1↔G2 transition, also in the free last
+row / column).  Without `NoAbut` the bound is false: `C08_noabut_covers_free_terminal_gaps`. -/
 theorem C08_upper_aff_semi (M : Mat) (go ge : Int) (a b : Seq) (aln : Aln) (h : ValidGlobal a b aln)
     (hn : NoAbut aln) :
     scoreAffSemiPos M go ge a b (0, 0) .m aln ≤ optAff .semi M go ge a b := by
@@ -397,7 +400,8 @@ theorem C08_attained_pub_lin (mode : Mode) (M : Mat) (g : Int) (a b : Seq) :
     obtain ⟨aln, hv, hs⟩ := C08_attained_local M g a b
     exact ⟨aln, hv, by rw [C08_checker_score_lin _ _ _ _ _ (by decide)]; exact hs⟩
 
-/-- Affine penalties, all modes, public score: no valid non-abutting alignment scores above `optAff`. -/
+/-- Affine penalties, all modes, public score: no valid non-abutting alignment scores above `optAff`.
+"Non-abutting" includes free terminal gaps (`terminal_penalty=False`): see `C08_noabut_covers_free_terminal_gaps`. -/
 theorem C08_upper_pub_aff (mode : Mode) (M : Mat) (go ge : Int) (hgo : go ≤ 0) (hge : ge ≤ 0) (a b : Seq)
     (aln : Aln) (h : Valid mode a b aln) (hn : NoAbut aln) :
     score mode (.aff go ge) M a b aln ≤ optAff mode M go ge a b := by
@@ -478,6 +482,29 @@ theorem C08_traces_nonempty (mode : Mode) (M : Mat) (g : Int) (a b : Seq) (mx : 
   rcases h with h | h
   · omega
   · exact this h
+
+/-- The abutting restriction of the property ("a gap in one sequence may not directly abut a gap in the other") is
+load-bearing for `terminal_penalty=False` and covers FREE terminal gaps: an interior gap run that ends exactly
+where the other sequence is exhausted abuts that sequence's free terminal gap run.  Such alignments are valid and
+their public `align.score(…, terminal_penalty=False)` exceeds `optAff .semi` = what `align_optimal` reports
+(and they are what `align_banded` returns, cropped; observation of the C09 worker).  Not a C08 violation — they are
+outside the property's class — but the restriction is NOT the maximum over all end-to-end alignments:
+1. minimal witness `12/10`: `[both 0 0, gapB 1, gapA 1]` scores 3, `optAff .semi` = 1 (the linear optimum with the
+   same penalty is 3);
+2. the C09 witness a=[1,2,2] b=[1,0,1,0,0] gap=(-1,-1): the banded result completed end-to-end scores 2, `optAff .semi` = 0. -/
+theorem C08_noabut_covers_free_terminal_gaps :
+    (ValidGlobal [1, 2] [1, 0] [.both 0 0, .gapB 1, .gapA 1] ∧ ¬ NoAbut [.both 0 0, .gapB 1, .gapA 1] ∧
+      score .semi (.aff (-1) (-1)) (Mat.ofRows [[4, -3], [-3, 4], [-3, -3]]) [1, 2] [1, 0]
+        [.both 0 0, .gapB 1, .gapA 1] = 3 ∧
+      optAff .semi (Mat.ofRows [[4, -3], [-3, 4], [-3, -3]]) (-1) (-1) [1, 2] [1, 0] = 1 ∧
+      opt .semi (Mat.ofRows [[4, -3], [-3, 4], [-3, -3]]) (-1) [1, 2] [1, 0] = 3) ∧
+    (ValidGlobal [1, 2, 2] [1, 0, 1, 0, 0] [.gapA 0, .gapA 1, .both 0 2, .gapB 1, .gapB 2, .gapA 3, .gapA 4] ∧
+      ¬ NoAbut [.gapA 0, .gapA 1, .both 0 2, .gapB 1, .gapB 2, .gapA 3, .gapA 4] ∧
+      score .semi (.aff (-1) (-1)) (Mat.ofRows [[4, -3], [-3, 4], [-3, -3]]) [1, 2, 2] [1, 0, 1, 0, 0]
+        [.gapA 0, .gapA 1, .both 0 2, .gapB 1, .gapB 2, .gapA 3, .gapA 4] = 2 ∧
+      optAff .semi (Mat.ofRows [[4, -3], [-3, 4], [-3, -3]]) (-1) (-1) [1, 2, 2] [1, 0, 1, 0, 0] = 0) := by
+  refine ⟨⟨by unfold ValidGlobal; decide, by unfold NoAbut; decide, by decide, by decide, by decide⟩,
+    ⟨by unfold ValidGlobal; decide, by unfold NoAbut; decide, by decide, by decide⟩⟩
 
 /-- Known finding, as modelled: affine + not local + an empty sequence raises IndexError. -/
 theorem C08_affine_empty_defect : raisesIndexError .global (.aff (-2) (-1)) [0, 0] [] = true := by decide
